@@ -3,6 +3,7 @@ mod entry_ops;
 mod exec;
 mod gen;
 mod gen_ext;
+mod par_runner;
 mod pure;
 mod serde_runner;
 mod set_runner;
@@ -111,6 +112,7 @@ const PROFILES: &[Profile] = &[
     prof("reserve", "map", "reserve"),
     prof("iter", "map", "iter"),
     prof("xback", "map", "xback"),
+    prof("par", "par", "par"),
     prof("serde", "serde", "serde"),
     prof("table", "table", "table"),
     Profile { steps: Some(320), ..prof("table-churn", "table", "table-churn") },
@@ -181,6 +183,9 @@ fn make_base(prof: &Profile, seed: u64, i: usize, real: Option<&mut dyn Write>) 
     };
     let lay = *rng.pick(&["std", "std", "std", "a16", "a64", "big"]);
     let lay = if prof.coll == "table" && rng.chance(1, 5) { "zst" } else { lay };
+    // odd element size (5 bytes, align 1): layout padding between data and control bytes
+    let odd = prof.coll == "map" && !prof.gen.starts_with("entry") && prof.drop.is_none() && rng.chance(1, 7);
+    let (drop, lay) = if odd { (false, "odd5") } else { (drop, lay) };
     let universe = *rng.pick(&[4u64, 8, 12, 16, 24, 32, 64, 200]);
     let universe = if prof.gen == "saturate" { 4096 } else { universe };
     let kind = *rng.pick(gen::PLAN_KINDS);
